@@ -10,7 +10,7 @@ from ..spell import spell, checked_pools
 LEVEL = 'model_checking'
 
 ALL = ['proc', 'if', 'nestedbegin', 'whiledo', 'loop', 'caseexpr_body', 'createplain',
-       'for', 'whileloop', 'casestmt', 'declare']
+       'for', 'whileloop', 'casestmt', 'declare', 'caseexpr_header']
 # construct flag -> trigger tag a script must carry for a failure to be attributed to it
 TRIGGER_OF = {'for': 'T_for_endloop', 'whileloop': 'T_while_endloop',
               'casestmt': 'T_end_case', 'declare': 'T_declare'}
